@@ -128,8 +128,9 @@ func varintBytesEvent(prefix, s []byte) ev {
 		e["a8_back"], e["a8_n"] = B(back), n
 	} else {
 		// a string too long for an 8-bit length: the documented contract is a panic (observed, not required)
-		p := guard(func() { quicwire.AppendUint8Bytes(nil, s) })
-		e["a8_panic"], e["a8_out"], e["a8_back"], e["a8_n"] = "too long: "+p, B(nil), B(nil), 0
+		var got []byte
+		p := guard(func() { got = quicwire.AppendUint8Bytes(nil, s) })
+		e["a8_panic"], e["a8_out"], e["a8_back"], e["a8_n"] = "too long: "+p, B(got), B(nil), 0
 	}
 	return e
 }
